@@ -141,6 +141,99 @@ def factory(n, ranged):
     return HlRangeSpec(n, ranged)
 
 
+class TaggerSpec:
+    """the tagging closure of highlight() (closure#0) under-constrained: its answer for a token must be a function of how THAT token's
+    node classifies: Function <= Definition::Function or a Local whose type is a function; Constructor <= Definition::Variant or the
+    name of a variant declaration; nothing else is tagged; and every such token is tagged."""
+
+    def make_interp(self):
+        it = W.interp('ide', uc=True)
+        it.allow = [r'^ide::semantic_highlighting::highlight::\{closure#0\}$', r'^ide::semantic_highlighting::highlight::\{closure#0\}::\{closure#\d+\}$']
+        # memo tables etc. are havoc'd: whatever they return does not derive from classifying the token
+        for k in [k for k in it.models if re.match(r'^(HashMap|FxHashMap|IndexMap|BTreeMap)::(get|insert|entry|contains_key)$', k)]:
+            it.models.pop(k)
+        self.defs = {vn: d for vn, hf, d in W.enums['Definition']}
+        self.tags = {vn: d for vn, hf, d in W.enums['HlTag']}
+        self.tys = {vn: d for vn, hf, d in (W.enums.get('ty::Ty') or W.enums.get('Ty'))}
+        return it
+
+    def run_path(self, it):
+        from .c08 import derives_from
+        b = W.crates['ide']['ide::semantic_highlighting::highlight::{closure#0}']
+        tok = LazyV('tok')
+        r = it.run_body(b, [LazyV('env'), RefV([tok], 0)])
+        calls = it.trace
+        var, pay = models.shape(it, r, ['None', 'Some'])
+        cls = [t for t in calls if t[0].endswith('classify_node') and any(derives_from(a, tok, calls) for a in t[1])]
+        tys = [t for t in calls if t[0].endswith('Local::ty')]
+        vcast = [t for t in calls if re.search(r'<syntax::ast::Variant as .*>::cast$', t[0]) and any(derives_from(a, tok, calls) for a in t[1])]
+        ncast = [t for t in calls if re.search(r'<syntax::ast::Name as .*>::cast$', t[0])]
+        nrcast = [t for t in calls if re.search(r'<syntax::ast::NameRef as .*>::cast$', t[0])]
+        must = lambda cond: it.check(z3.Not(cond))[0] != z3.sat          # cond holds on every model of the path
+        may = lambda cond: it.check(cond)[0] == z3.sat
+        is_some = lambda res: res.discriminant() == 1
+        # what the classification of THIS token says on this path
+        fn_ok = False; ctor_ok = False
+        if cls:
+            d = cls[0][2]
+            dd = d.kid(('Some', 0)).discriminant()
+            classified = must(is_some(d))
+            if classified and must(dd == self.defs['Function']):
+                fn_ok = True
+            if classified and must(dd == self.defs['Local']) and tys and must(tys[0][2].discriminant() == self.tys['Function']):
+                fn_ok = True
+            if classified and must(dd == self.defs['Variant']):
+                ctor_ok = True
+        if vcast and must(is_some(vcast[0][2])):
+            ctor_ok = True
+        bad = []
+        if var == 'Some':
+            tag = pay
+            if isinstance(tag, IntV) and not tag.sym():
+                tn = next((k for k, v in self.tags.items() if v == tag.v), '?')
+            elif isinstance(tag, Agg):
+                tn = tag.variant
+            else:
+                tn = None
+            if tn is None:
+                bad.append('C19: the tag reported for a token does not come from classifying that token (it is read from somewhere else)')
+            elif tn == 'Function' and not fn_ok:
+                bad.append('C19: a token is tagged as function although its node does not classify as a function or a function-typed local on that path')
+            elif tn == 'Constructor' and not ctor_ok:
+                bad.append('C19: a token is tagged as constructor although its node is neither a constructor reference nor the name of a variant')
+            cl = 'tag:%s' % tn
+        else:
+            if fn_ok or ctor_ok:
+                bad.append('C19: a token whose node classifies as %s is not tagged' % ('a function / function-typed local' if fn_ok else 'a constructor'))
+            cl = 'untagged'
+        rec = {'cls': cl, 'ok': True, 'sample': {'outcome': cl, 'classified': bool(cls)}}
+        if bad:
+            rec.update({'cls': 'violation', 'ok': False, 'why': bad, 'cex': {'fn': 'tagger'}})
+        return rec
+
+    def on_panic(self, it, e):
+        return {'cls': 'panic-under-havoc', 'ok': True}
+
+
+def tagger_factory():
+    return TaggerSpec()
+
+
+TAG_TEXT = ('type T { A B(i: Int) }\nfn foo(g) { g }\nfn main() {\n  let f = fn() { 1 }\n  f()\n  let f = 1\n  f\n  foo(f)\n  let h = foo\n  h(A)\n  let h = B(1)\n  h\n'
+            '  case h { B(i) -> i A -> f }\n}\n')
+# (line, text, tag) in document order: constructors at their declaration and every use, function references, function-typed locals
+TAG_EXPECT = [(0, 'A', 'Constructor'), (0, 'B', 'Constructor'), (4, 'f', 'Function'), (7, 'foo', 'Function'), (8, 'foo', 'Function'), (9, 'h', 'Function'), (9, 'A', 'Constructor'),
+              (10, 'B', 'Constructor'), (12, 'B', 'Constructor'), (12, 'A', 'Constructor')]
+
+
+def native_tags(oracle):
+    r = oracle.ask('semhl', json.dumps({'text': TAG_TEXT, 'range': None}))
+    if not isinstance(r, dict) or 'semhl' not in r:
+        return None, r
+    got = [(TAG_TEXT[:s].count('\n'), TAG_TEXT[s:e], t) for s, e, t in r['semhl']]
+    return got, r
+
+
 TEXT = 'type T {\nA\nB\n}\nfn foo() { 1 }\nfn main() {\n  foo() // hé\n  foo()\nA\n}\n'
 
 
@@ -187,6 +280,22 @@ def part(chk, tier, jobs):
                 chk.add_run('highlight(): %d symbolic tokens, %s request (tagger havoc\'d)' % (n, 'symbolic range' if ranged else 'full-document'), res, complete,
                             {'tokens': n, 'token_len': '1..3', 'range': 'symbolic' if ranged else None}, nontrivial_classes=lambda c: c.endswith('-reported') and not c.startswith('0-'))
                 found += res.violations
+        # (d) the tagger
+        res, complete = explore.explore(tagger_factory, (), jobs=1)
+        chk.add_run('highlight() tagging closure over an under-constrained token', res, complete, {'callees': 'havoc'}, nontrivial_classes=lambda c: c.startswith('tag:'))
+        got, raw = native_tags(oracle)
+        if res.violations:
+            why = '; '.join(sorted({w for v in res.violations for w in v['why']}))[:400]
+            if got != TAG_EXPECT:
+                chk.violation('highlight-tags', 'bounded', 'tagger: %s; public API on %r: tagged %s, Gleam\'s functions/constructors/function-typed locals are %s' % (why, TAG_TEXT, got if got is not None else raw, TAG_EXPECT),
+                              {'text': TAG_TEXT}, confirmed=True)
+            else:
+                chk.inconclusive.append('tagger kernel: %s -- but the fixture is tagged as expected through the public API' % why)
+        elif got != TAG_EXPECT:
+            chk.inconclusive.append('translator validation FAILED: tagger kernel finds no problem; public API tags %s, expected %s' % (got if got is not None else raw, TAG_EXPECT))
+        else:
+            chk.validated += len(TAG_EXPECT)
+            chk.log('tagger: the %d identifiers of a fixture (re-bound locals, function values, constructors in expressions and patterns) are tagged as expected through the public API' % len(TAG_EXPECT))
         nreq, problems = native_scan(oracle)
         if found:
             why = found[0]['why'][0]
